@@ -26,7 +26,7 @@ MANIFEST = {
     "text": "Equivalence of the U3 rule is a trigonometric identity in three angles: it is decided for all real angles, for the plain gate on every qubit of a 3-qubit register and for 1 and 2 controls on several placements. The controlled case provably yields diag(I, e^{-i(phi+lambda)/2} U3), i.e. a relative phase: recorded as a known finding and pinned exactly, so any other deviation still reports. Rule chaining is checked on enumerated rule systems (bounded).",
     "note": "Trusted: exact domain reading of sympy/numpy, floats-as-reals. Bounds: register width 3, control counts 1..2, rule lists up to length 3 over a 4-rule pool.",
 }
-TRUSTED = ["vfw/trig.py exact domain", "shadow execution of the real module text", "z3 5.1 nlsat second opinion on small matrices"]
+TRUSTED = ["props/C18chain.py: abstract monoid of actions with the flattening law (Lean twin prod_flatten_rule); hypothesis on every rule: its production has the operation's action where its predicate holds (proved for U3GateToRotation by the Engine M obligations of this check)", "vfw/trig.py exact domain", "shadow execution of the real module text", "z3 5.1 nlsat second opinion on small matrices"]
 ASSUMPTIONS = ["machine arithmetic treated as mathematical (symbolic angles; numeric float paths are covered only by the bounded native cross-check)",
                "general control count k follows from the block law diag(I,A)diag(I,B)=diag(I,AB); checked here for k = 1, 2"]
 EXTRA = {"explanation": "matrix identities generated from the current text of the decomposition rule via Engine M"}
